@@ -22,11 +22,27 @@ def quoting_helpers(prog, crate):
         r = o.local(0)
         alts = r.kids if r.kind == "phi" else [r]
         kinds = set()
+        def _is_quote(n):
+            return n.kind == "call" and n.owner is not None and n.at and n.at[1] == "term" and \
+                n.owner.blocks[n.at[0]]["term"].get("callee_crate") in ("serde_json", "serde_yaml") and method_name(n.a).endswith("to_string")
         for a in alts:
-            if any(n.kind == "call" and n.owner is not None and n.at and n.at[1] == "term" and
-                   n.owner.blocks[n.at[0]]["term"].get("callee_crate") in ("serde_json", "serde_yaml") and method_name(n.a).endswith("to_string")
-                   for n in a.walk()):
+            if any(_is_quote(n) for n in a.walk()):
                 kinds.add("quoted")
+            elif peel(a).kind == "call" and method_name(peel(a).a) in ("String::new", "String::with_capacity") and peel(a).at is not None:
+                # accumulator form: `let mut s = String::new(); for c in quoted.chars() { s.push(..) / s.push_str(..) }` where every pushed piece derives
+                # from the characters of the serde-quoted text (a post-processing loop over the quoted string)
+                from .c16 import mut_calls
+                acc = b.blocks[peel(a).at[0]]["term"]["dest"]["l"]
+                muts = mut_calls(b, acc)
+                pieces_ok = bool(muts)
+                for mb, mt in muts:
+                    if mname(mt) not in ("String::push", "String::push_str", "Extend::extend"):
+                        pieces_ok = False
+                        continue
+                    arg = o.operand(mt["args"][1])
+                    if not any(_is_quote(n) for n in arg.walk()):
+                        pieces_ok = False
+                kinds.add("quoted" if pieces_ok else "other:accumulator not fed from the quoted text")
             elif peel(a).kind == "arg" and peel(a).a == 1:
                 kinds.add("plain")
             else:
@@ -533,6 +549,7 @@ def r17_8(ctx):
     prog = ctx.prog
     q = prog.fn("yaml_flow_scalar")
     bodies = [q] + prog.closures_of(q)
+    bodies += [pb for b_ in list(bodies) for pb in prog.promoted_of(b_)]     # `('\u{7f}'..='\u{9f}').contains(&c)` keeps its range in a promoted constant
     consts, calls = set(), set()
     for b in bodies:
         for c, _ in _all_consts(b):
